@@ -379,7 +379,7 @@ class Ctx:
         self.judge_wall = 0.0
         import threading
         self._lock = threading.Lock()
-        kf = [f for f in load_known_findings() if f["property"] == pid]
+        kf = [f for f in load_known_findings() if f["property"] == pid or pid in f.get("also", [])]
         self.kf_open = {f["id"]: f for f in kf if f.get("status") == "open"}
         self.thorough = tier == "thorough"
 
